@@ -1,5 +1,5 @@
 """C12 - title and module name derive from prefix and relative path, or @module."""
-from ..core import Report
+from ..core import AnalysisError, Report
 from ..model import Repo
 from . import atn_rules, fsrules, misc_rules, pathterms, writer_rules
 
@@ -61,6 +61,119 @@ def rule_prefix_default(rep: Report, repo: Repo, rule: str) -> None:
     rep.floor(rule, 4, "prefix default facts")
 
 
+def _first_line(t) -> bool:
+    """<cleaned module doccomment>.split('\n')[0] / .partition('\n')[0] / .split('\n', 1)[0] / .splitlines()[0]"""
+    from ..absint import const, show
+    if not (isinstance(t, tuple) and t and t[0] == "sub" and t[2] == const(0)):
+        return False
+    c = t[1]
+    if not (c[0] == "call" and c[1][0] == "attr"):
+        return False
+    form = (c[1][2], c[2])
+    if form not in (("split", (const("\n"),)), ("partition", (const("\n"),)), ("split", (const("\n"), const(1))), ("splitlines", ())):
+        return False
+    whole = show(c[1][1])
+    return "clean_doc_lines" in whole and "Module_docstring().getText()" in whole
+
+
+def _regex_name_capture(pattern: str, group: int, anchored: bool):
+    """Does group `group` of `pattern` capture everything after '@module' up to the end (modulo blanks)?  (ok, reason)"""
+    import re._parser as sre
+    import re._constants as C
+    try:
+        tree = sre.parse(pattern)
+    except Exception as e:          # noqa
+        return False, f"pattern does not compile: {e}"
+    items = list(tree)
+    # locate the capture group at top level
+    pos = next((i for i, (op, av) in enumerate(items) if op is C.SUBPATTERN and av[0] == group), None)
+    if pos is None:
+        return None, "capture group not at top level"
+    before = items[:pos]
+    lits = "".join(chr(av) for op, av in before if op is C.LITERAL)
+    if "@module" not in lits:
+        return False, "the pattern does not anchor the name behind '@module'"
+
+    def wide(op, av) -> bool:
+        # `.`  /  \S  /  [^\s]  /  [^ ]   repeated without upper bound
+        if op not in (C.MAX_REPEAT, C.MIN_REPEAT):
+            return False
+        lo, hi, sub = av
+        if hi is not C.MAXREPEAT or len(sub) != 1:
+            return False
+        sop, sav = sub[0]
+        if sop is C.ANY:
+            return True
+        if sop is C.IN:
+            if sav == [(C.CATEGORY, C.CATEGORY_NOT_SPACE)]:
+                return True
+            if sav and sav[0] == (C.NEGATE, None) and all(x[0] is C.LITERAL and chr(x[1]).isspace() or x == (C.CATEGORY, C.CATEGORY_SPACE) for x in sav[1:]):
+                return True
+        return False
+    inner = list(items[pos][1][3])
+    if len(inner) == 1 and wide(*inner[0]):
+        # a lazy wide capture must be followed by an end anchor, a greedy one reaches the end by itself
+        if inner[0][0] is C.MIN_REPEAT:
+            rest = items[pos + 1:]
+            if not any(op is C.AT and av in (C.AT_END, C.AT_END_STRING) for op, av in rest):
+                return False, "a lazy capture without end anchor yields the empty string"
+        return True, ""
+    return False, "the capture group accepts only part of the characters a module name may contain (the name is cut at the first other character)"
+
+
+def module_name_form(t):
+    """Classify the term bound to ModuleDocumentation.name: (True, '') equivalent to strip(line0 - '@module'); (False, why);
+    (None, '') unknown."""
+    from ..absint import const, is_const
+    stripped = False
+    while t[0] == "call" and t[1][0] == "attr" and t[1][2] == "strip" and not t[2]:
+        stripped = True
+        t = t[1][1]
+    # line0.replace('@module', '')
+    if t[0] == "call" and t[1][0] == "attr" and t[1][2] in ("replace", "removeprefix") and _first_line(t[1][1]):
+        args = t[2]
+        good = args == (const("@module"), const("")) or (t[1][2] == "removeprefix" and args == (const("@module"),))
+        if not good:
+            return False, f"it removes {args[0][1] if args and is_const(args[0]) else '?'!r} instead of '@module'"
+        return (True, "") if stripped else (False, "the blanks around the name are not trimmed")
+    # line0[len('@module'):] / line0[7:]
+    if t[0] == "slice" and _first_line(t[1]) and t[3] == const(None) and t[4] == const(None):
+        lo = t[2]
+        good = lo == const(7) or lo == ("call", ("global", "len"), (const("@module"),), ())
+        if not good:
+            return False, "the prefix cut from the first line is not exactly '@module'"
+        return (True, "") if stripped else (False, "the blanks around the name are not trimmed")
+    # re.sub('@module', '', line0)
+    if t[0] == "call" and t[1] == ("global", "re.sub") and len(t[2]) >= 3 and _first_line(t[2][2]):
+        pat, repl = t[2][0], t[2][1]
+        if not (is_const(pat) and is_const(repl)):
+            return None, ""
+        if repl != const("") or pat[1] not in ("@module", "^@module", r"@module\s*", r"^@module\s*", r"^\s*@module\s*"):
+            return False, f"re.sub({pat[1]!r}, {repl[1]!r}, ...) removes more or less than '@module'"
+        return (True, "") if stripped else (False, "the blanks around the name are not trimmed")
+    # M.group(k) if M is not None else ''   with M = re.search/match/fullmatch(P, line0)
+    grp = None
+    if t[0] == "ifexp":
+        for branch, other in ((t[2], t[3]), (t[3], t[2])):
+            if branch[0] == "call" and branch[1][0] == "attr" and branch[1][2] == "group" and other == const(""):
+                grp = branch
+    elif t[0] == "call" and t[1][0] == "attr" and t[1][2] == "group":
+        grp = t
+    if grp is not None:
+        m = grp[1][1]
+        k = grp[2][0][1] if grp[2] and is_const(grp[2][0]) else 0
+        if m[0] == "call" and m[1][0] == "global" and m[1][1] in ("re.search", "re.match", "re.fullmatch") and len(m[2]) >= 2 \
+                and is_const(m[2][0]) and _first_line(m[2][1]):
+            ok, why = _regex_name_capture(m[2][0][1], k, m[1][1] != "re.search")
+            if ok is None:
+                return None, ""
+            if ok and not stripped:
+                # a wide capture keeps trailing blanks; leading ones are eaten only when the pattern has \s* before the group
+                return False, "the captured name keeps surrounding blanks (no strip)"
+            return ok, why
+    return None, ""
+
+
 def rule_module_callback(rep: Report, repo: Repo, rule: str) -> None:
     from ..listener import model
     from ..absint import show
@@ -75,13 +188,12 @@ def rule_module_callback(rep: Report, repo: Repo, rule: str) -> None:
             if e[0] == "push" and e[1] == lm.entries:
                 ob = st.obj(e[2])
                 nm, doc = show(ob["fields"]["name"]), show(ob["fields"]["doc"])
-                first_line = any(x in nm for x in (".split('\\n')[0]", ".partition('\\n')[0]", ".split('\\n', 1)[0]"))
-                base_ok = "clean_doc_lines" in nm and first_line and "Module_docstring().getText()" in nm
-                removes = "'@module'" in nm or "@module" in nm
-                trims = any(x in nm for x in (".strip(", "re.sub(", "re.match(", ".lstrip(", ".split("))
-                rep.check(base_ok and removes and trims, rule,
-                          f"cminx.aggregator:{lm.cls}.enterDocumented_module", f"name = {nm[:100]}",
-                          "the module name is not the first cleaned doccomment line with '@module' removed and surrounding blanks trimmed")
+                verdict, why = module_name_form(ob["fields"]["name"])
+                if verdict is None:
+                    raise AnalysisError(f"enterDocumented_module: unrecognised computation of the module name: {nm[:120]}")
+                rep.check(verdict, rule, f"cminx.aggregator:{lm.cls}.enterDocumented_module", f"name = {nm[:100]}",
+                          "the module name is not the first cleaned doccomment line with '@module' removed and surrounding blanks "
+                          "trimmed: " + why, witness="#[[[ @module my_proj.utils")
                 rep.check((("'\\n'.join(" in doc and "[1:]" in doc) or ".partition('\\n')[2]" in doc) and "clean_doc_lines" in doc, rule,
                           f"cminx.aggregator:{lm.cls}.enterDocumented_module", f"doc = {doc[:90]}",
                           "the module body is not the remaining doccomment lines")
